@@ -72,7 +72,7 @@ def _renumber(sk: Any, counter: List[int]) -> Any:
     if sk[0] == "const":
         counter[0] += 1
         return ("const", counter[0] - 1)
-    if sk[0] == "var":
+    if sk[0] in ("var", "lit"):
         return sk
     return (sk[0],) + tuple(_renumber(c, counter) for c in sk[1:])
 
@@ -123,7 +123,7 @@ def enum_upto(n: int, **kw: Any) -> Iterator[Any]:
 
 
 def sk_size(sk: Any) -> int:
-    if sk[0] in ("const", "var"):
+    if sk[0] in ("const", "var", "lit"):
         return 1
     return 1 + sum(sk_size(c) for c in sk[1:])
 
@@ -136,6 +136,8 @@ def sk_str(sk: Any, vals: Optional[Dict[int, Any]] = None) -> str:
         return f"c{sk[1]}"
     if k == "var":
         return sk[1]
+    if k == "lit":
+        return str(sk[1])
     return "(" + k + " " + " ".join(sk_str(c, vals) for c in sk[1:]) + ")"
 
 
@@ -151,7 +153,7 @@ def slot_roles(sk: Any, role: str = "coef", out: Optional[Dict[int, str]] = None
     k = sk[0]
     if k == "const":
         out[sk[1]] = role
-    elif k == "var":
+    elif k in ("var", "lit"):
         pass
     elif k == "pow":
         slot_roles(sk[1], "coef", out)
@@ -250,6 +252,8 @@ def build(sk: Any, prov: Any, roles: Optional[Dict[int, str]] = None) -> Any:
         return E.ConstantExpression(prov.get(sk[1], roles[sk[1]]))
     if k == "var":
         return E.VariableExpression(sk[1])
+    if k == "lit":
+        return E.ConstantExpression(sk[1])
     if k in UN:
         return UN[k](build(sk[1], prov, roles))
     if k.endswith("L") and k[:-1] in UN:  # one-operand node with the operand on the left
